@@ -182,13 +182,6 @@ Inductive enc_quota : val -> list byte -> Prop :=
 | quota_intro k s1 root wr s2 res wl : kw "QUOTA" k -> enc_ws1 s1 -> enc_astring root wr -> utf8_valid root = true -> enc_ws1 s2 -> enc_quota_list res wl ->
     enc_quota (VCon "Response::Quota" [VRec "Quota" [("root_name"%string, VBytes root); ("resources"%string, res)]]) (k ++ s1 ++ wr ++ s2 ++ wl).
 
-(* every untagged data response the round-trip theorem reaches, besides FETCH *)
-Inductive enc_data : val -> list byte -> Prop :=
-| data_basic v body : enc_untagged v body -> enc_data v body
-| data_quota v body : enc_quota v body -> enc_data v body.
-Inductive enc_data_response : val -> list byte -> Prop :=
-| enc_data_intro v body sp : enc_data v body -> enc_spaces sp -> enc_data_response v (bs "* " ++ body ++ sp ++ [13; 10]).
-
 (* ---------------------------------------------------------------- RFC 3501 7.1: status responses *)
 Inductive enc_status : val -> list byte -> Prop :=
 | st_ok w : kw "OK" w -> enc_status (VCon "Status::Ok" []) w
@@ -235,3 +228,192 @@ Inductive enc_tagged_response : val -> list byte -> Prop :=
 | enc_tagged_text tag st ws code info wt : tag <> [] -> forallb rfc_TAG_CHAR tag = true -> enc_status st ws -> enc_resp_text code info wt ->
     enc_tagged_response (VRec "Response::Done" [("tag"%string, VCon "RequestId" [VBytes tag]); ("status"%string, st); ("code"%string, code); ("information"%string, info)])
                         (tag ++ [32] ++ ws ++ [32] ++ wt ++ [13; 10]).
+
+(* continue-req = "+" SP (resp-text / base64) CRLF; base64 is a text that does not begin with "[" *)
+Inductive enc_continue_response : val -> list byte -> Prop :=
+| enc_continue_intro code info wt : enc_resp_text code info wt ->
+    enc_continue_response (VRec "Response::Continue" [("code"%string, code); ("information"%string, info)]) ([43; 32] ++ wt ++ [13; 10]).
+
+(* ---------------------------------------------------------------- SEARCH / SORT (RFC 3501 7.2.5, RFC 5256) *)
+Inductive enc_ids : list val -> list byte -> Prop :=
+| ids_nil : enc_ids [] []
+| ids_cons n w l ws : enc_number 32 n w -> enc_ids l ws -> enc_ids (VNum n :: l) (SPb ++ w ++ ws).
+(* "* SEARCH" *(SP nz-number), spaces before CRLF tolerated *)
+Inductive enc_id_list_response : val -> list byte -> Prop :=
+| enc_search k l w sp : kw "SEARCH" k -> enc_ids l w -> enc_spaces sp ->
+    enc_id_list_response (VCon "Response::MailboxData" [VCon "MailboxDatum::Search" [VList l]]) (bs "* " ++ k ++ w ++ sp ++ [13; 10])
+| enc_sort k l w sp : kw "SORT" k -> enc_ids l w -> enc_spaces sp ->
+    enc_id_list_response (VCon "Response::MailboxData" [VCon "MailboxDatum::Sort" [VList l]]) (bs "* " ++ k ++ w ++ sp ++ [13; 10]).
+
+(* ---------------------------------------------------------------- STATUS (RFC 3501 7.2.4, RFC 4551) *)
+(* mailbox = "INBOX" / astring; INBOX is case-insensitive and is returned as "INBOX" *)
+Inductive enc_mailbox : list byte -> list byte -> Prop :=
+| enc_mailbox_intro s w : enc_astring s w -> utf8_valid s = true ->
+    enc_mailbox (if eq_nocase s (bs "INBOX") then bs "INBOX" else s) w.
+Inductive enc_status_att : val -> list byte -> Prop :=
+| sa_messages k n w : kw "MESSAGES " k -> enc_number 32 n w -> enc_status_att (VCon "StatusAttribute::Messages" [VNum n]) (k ++ w)
+| sa_recent k n w : kw "RECENT " k -> enc_number 32 n w -> enc_status_att (VCon "StatusAttribute::Recent" [VNum n]) (k ++ w)
+| sa_uidnext k n w : kw "UIDNEXT " k -> enc_number 32 n w -> enc_status_att (VCon "StatusAttribute::UidNext" [VNum n]) (k ++ w)
+| sa_uidvalidity k n w : kw "UIDVALIDITY " k -> enc_number 32 n w -> enc_status_att (VCon "StatusAttribute::UidValidity" [VNum n]) (k ++ w)
+| sa_unseen k n w : kw "UNSEEN " k -> enc_number 32 n w -> enc_status_att (VCon "StatusAttribute::Unseen" [VNum n]) (k ++ w)
+| sa_highestmodseq k n w : kw "HIGHESTMODSEQ " k -> enc_number 64 n w -> enc_status_att (VCon "StatusAttribute::HighestModSeq" [VNum n]) (k ++ w).
+Inductive enc_status_atts_more : list val -> list byte -> Prop :=
+| sam_nil : enc_status_atts_more [] []
+| sam_cons a l w ws : enc_status_att a w -> enc_status_atts_more l ws -> enc_status_atts_more (a :: l) (SPb ++ w ++ ws).
+Inductive enc_status_att_list : val -> list byte -> Prop :=
+| sal_empty : enc_status_att_list (VList []) [40; 41]
+| sal_some a w l ws : enc_status_att a w -> enc_status_atts_more l ws -> enc_status_att_list (VList (a :: l)) ([40] ++ w ++ ws ++ [41]).
+Inductive enc_mailbox_status : val -> list byte -> Prop :=
+| enc_mailbox_status_intro k m wm atts wa : kw "STATUS " k -> enc_mailbox m wm -> enc_status_att_list atts wa ->
+    enc_mailbox_status (VCon "Response::MailboxData" [VRec "MailboxDatum::Status" [("mailbox"%string, VBytes m); ("status"%string, atts)]])
+                       (k ++ wm ++ SPb ++ wa).
+
+(* ---------------------------------------------------------------- LIST / LSUB (RFC 3501 7.2.2, 7.2.3; RFC 6154 special-use) *)
+(* mbx-list-flags: "\" atom, the names of RFC 3501 and RFC 6154 in any case are classified, any other is an extension *)
+Definition rfc_name_attrs : list (string * string) :=
+  [("\Noinferiors", "NameAttribute::NoInferiors"); ("\Noselect", "NameAttribute::NoSelect");
+   ("\Marked", "NameAttribute::Marked"); ("\Unmarked", "NameAttribute::Unmarked");
+   ("\All", "NameAttribute::All"); ("\Archive", "NameAttribute::Archive"); ("\Drafts", "NameAttribute::Drafts");
+   ("\Flagged", "NameAttribute::Flagged"); ("\Junk", "NameAttribute::Junk"); ("\Sent", "NameAttribute::Sent");
+   ("\Trash", "NameAttribute::Trash")]%string.
+Inductive enc_name_attr : val -> list byte -> Prop :=
+| na_known K n w : In (K, n) rfc_name_attrs -> kw K w -> enc_name_attr (VCon n []) w
+| na_ext a : a <> [] -> forallb rfc_ATOM_CHAR a = true ->
+    forallb (fun Kn : string * string => negb (same_nocase (bs (fst Kn)) ([92] ++ a))) rfc_name_attrs = true ->
+    enc_name_attr (VCon "NameAttribute::Extension" [VBytes ([92] ++ a)]) ([92] ++ a).
+Inductive enc_name_attrs_more : list val -> list byte -> Prop :=
+| nam_nil : enc_name_attrs_more [] []
+| nam_cons a l w ws : enc_name_attr a w -> enc_name_attrs_more l ws -> enc_name_attrs_more (a :: l) (SPb ++ w ++ ws).
+Inductive enc_name_attr_list : val -> list byte -> Prop :=
+| nal_empty : enc_name_attr_list (VList []) [40; 41]
+| nal_some a w l ws : enc_name_attr a w -> enc_name_attrs_more l ws -> enc_name_attr_list (VList (a :: l)) ([40] ++ w ++ ws ++ [41]).
+(* hierarchy delimiter: a quoted character or NIL (the parser accepts any quoted string that is UTF-8) *)
+Inductive enc_delim : val -> list byte -> Prop :=
+| delim_nil w : enc_nil w -> enc_delim VNone w
+| delim_quoted s w : enc_quoted s w -> utf8_valid s = true -> enc_delim (VSome (VBytes s)) w.
+Inductive enc_mailbox_list : val -> list byte -> Prop :=
+| enc_mailbox_list_intro K k attrs wa dl wd m wm : (K = "LIST " \/ K = "LSUB ")%string -> kw K k ->
+    enc_name_attr_list attrs wa -> enc_delim dl wd -> enc_mailbox m wm ->
+    enc_mailbox_list (VCon "Response::MailboxData" [VRec "MailboxDatum::List"
+                        [("name_attributes"%string, attrs); ("delimiter"%string, dl); ("name"%string, VBytes m)]])
+                     (k ++ wa ++ SPb ++ wd ++ SPb ++ wm).
+
+(* every untagged data response the round-trip theorem reaches, besides FETCH *)
+Inductive enc_data : val -> list byte -> Prop :=
+| data_basic v body : enc_untagged v body -> enc_data v body
+| data_quota v body : enc_quota v body -> enc_data v body
+| data_status v body : enc_mailbox_status v body -> enc_data v body
+| data_list v body : enc_mailbox_list v body -> enc_data v body.
+Inductive enc_data_response : val -> list byte -> Prop :=
+| enc_data_intro v body sp : enc_data v body -> enc_spaces sp -> enc_data_response v (bs "* " ++ body ++ sp ++ [13; 10]).
+
+
+(* ---------------------------------------------------------------- CAPABILITY (RFC 3501 7.2.1) *)
+(* capability = ("AUTH=" auth-type) / atom; "IMAP4rev1" must be among them *)
+Inductive enc_cap : val -> list byte -> Prop :=
+| cap_rev1 w : kw "IMAP4rev1" w -> enc_cap (VCon "Capability::Imap4rev1" []) w
+| cap_auth p m : kw "AUTH=" p -> m <> [] -> forallb rfc_ATOM_CHAR m = true -> enc_cap (VCon "Capability::Auth" [VBytes m]) (p ++ m)
+| cap_atom a : a <> [] -> forallb rfc_ATOM_CHAR a = true -> eq_nocase a (bs "IMAP4rev1") = false ->
+    (Nat.ltb 5 (List.length a) && eq_nocase (firstn 5 a) (bs "AUTH=")) = false ->
+    enc_cap (VCon "Capability::Atom" [VBytes a]) a.
+Inductive enc_caps : list val -> list byte -> Prop :=
+| caps_nil : enc_caps [] []
+| caps_cons c w l ws : enc_cap c w -> enc_caps l ws -> enc_caps (c :: l) (SPb ++ w ++ ws).
+Inductive enc_capability_data : val -> list byte -> Prop :=
+| enc_capability_intro k l w : kw "CAPABILITY" k -> enc_caps l w -> In (VCon "Capability::Imap4rev1" []) l ->
+    enc_capability_data (VCon "Response::Capabilities" [VList l]) (k ++ w).
+
+(* ---------------------------------------------------------------- ENABLED (RFC 5161 3.2) *)
+(* "ENABLED" *(SP capability); every name is reported as an atom *)
+Inductive enc_enabled_more : list val -> list byte -> Prop :=
+| enabled_nil : enc_enabled_more [] []
+| enabled_cons a l ws : a <> [] -> forallb rfc_ATOM_CHAR a = true -> enc_enabled_more l ws ->
+    enc_enabled_more (VCon "Capability::Atom" [VBytes a] :: l) (SPb ++ a ++ ws).
+Inductive enc_enabled_data : val -> list byte -> Prop :=
+| enc_enabled_intro k l w : kw "ENABLED" k -> enc_enabled_more l w -> enc_enabled_data (VCon "Response::Capabilities" [VList l]) (k ++ w).
+
+(* ---------------------------------------------------------------- QUOTAROOT (RFC 2087 5.2) *)
+(* quotaroot_response = "QUOTAROOT" SP astring *(SP astring); one or more SP / HTAB are tolerated as separators *)
+Inductive enc_quotaroot_names : list val -> list byte -> Prop :=
+| qrn_nil : enc_quotaroot_names [] []
+| qrn_cons s n wn l ws : enc_ws1 s -> enc_astring n wn -> utf8_valid n = true -> enc_quotaroot_names l ws ->
+    enc_quotaroot_names (VBytes n :: l) (s ++ wn ++ ws).
+Inductive enc_quotaroot : val -> list byte -> Prop :=
+| enc_quotaroot_intro k s m wm l ws : kw "QUOTAROOT" k -> enc_ws1 s -> enc_astring m wm -> utf8_valid m = true ->
+    enc_quotaroot_names l ws ->
+    enc_quotaroot (VCon "Response::QuotaRoot" [VRec "QuotaRoot" [("mailbox_name"%string, VBytes m); ("quota_root_names"%string, VList l)]])
+                  (k ++ s ++ wm ++ ws).
+
+(* ---------------------------------------------------------------- MYRIGHTS (RFC 4314 3.8) *)
+(* rights = astring; each character is a right: RFC 4314 2.1 (l r s w i p k x t e a), RFC 5257 (n), the obsolete c and d
+   of RFC 2086; anything else is a custom right *)
+Definition rfc_rights : list (N * string) :=
+  [(108, "AclRight::Lookup"); (114, "AclRight::Read"); (115, "AclRight::Seen"); (119, "AclRight::Write");
+   (105, "AclRight::Insert"); (112, "AclRight::Post"); (107, "AclRight::CreateMailbox"); (120, "AclRight::DeleteMailbox");
+   (116, "AclRight::DeleteMessage"); (101, "AclRight::Expunge"); (97, "AclRight::Administer"); (110, "AclRight::Annotation");
+   (99, "AclRight::OldCreate"); (100, "AclRight::OldDelete")]%string.
+Fixpoint rfc_right_in (tbl : list (N * string)) (c : N) : val :=
+  match tbl with
+  | [] => VCon "AclRight::Custom" [VNum c]
+  | (k, n) :: t => if c =? k then VCon n [] else rfc_right_in t c
+  end.
+Inductive enc_rights : val -> list byte -> Prop :=
+| enc_rights_intro s w : enc_astring s w -> forallb (fun b => b <=? 127) s = true ->
+    enc_rights (VList (map (rfc_right_in rfc_rights) s)) w.
+(* "MYRIGHTS" SP mailbox SP rights; one or more SP / HTAB are tolerated as separators *)
+Inductive enc_myrights : val -> list byte -> Prop :=
+| enc_myrights_intro k s1 m wm s2 r wr : kw "MYRIGHTS" k -> enc_ws1 s1 -> enc_mailbox m wm -> enc_ws1 s2 -> enc_rights r wr ->
+    enc_myrights (VCon "Response::MyRights" [VRec "MyRights" [("mailbox"%string, VBytes m); ("rights"%string, r)]])
+                 (k ++ s1 ++ wm ++ s2 ++ wr).
+
+(* ---------------------------------------------------------------- ACL (RFC 4314 3.6) *)
+(* acl_data = "ACL" SP mailbox *(SP identifier SP rights) *)
+Inductive enc_acl_entry : val -> list byte -> Prop :=
+| enc_acl_entry_intro i wi s r wr : enc_astring i wi -> utf8_valid i = true -> enc_ws1 s -> enc_rights r wr ->
+    enc_acl_entry (VRec "AclEntry" [("identifier"%string, VBytes i); ("rights"%string, r)]) (wi ++ s ++ wr).
+Inductive enc_acl_more : list val -> list byte -> Prop :=
+| acl_more_nil : enc_acl_more [] []
+| acl_more_cons s e w l ws : enc_ws1 s -> enc_acl_entry e w -> enc_acl_more l ws -> enc_acl_more (e :: l) (s ++ w ++ ws).
+(* the whole response line; spaces (SP / HTAB) before CRLF are tolerated *)
+Inductive enc_acl_response : val -> list byte -> Prop :=
+| enc_acl_none k s1 m wm s0 : kw "ACL" k -> enc_ws1 s1 -> enc_mailbox m wm -> forallb (fun b => (b =? 32) || (b =? 9)) s0 = true ->
+    enc_acl_response (VCon "Response::Acl" [VRec "Acl" [("mailbox"%string, VBytes m); ("acls"%string, VList [])]])
+                     (bs "* " ++ (k ++ s1 ++ wm ++ s0) ++ [13; 10])
+| enc_acl_some k s1 m wm s2 e we l wl sp : kw "ACL" k -> enc_ws1 s1 -> enc_mailbox m wm -> enc_ws1 s2 ->
+    enc_acl_entry e we -> enc_acl_more l wl -> enc_spaces sp ->
+    enc_acl_response (VCon "Response::Acl" [VRec "Acl" [("mailbox"%string, VBytes m); ("acls"%string, VList (e :: l))]])
+                     (bs "* " ++ (k ++ s1 ++ wm ++ s2 ++ we ++ wl) ++ sp ++ [13; 10]).
+
+(* ---------------------------------------------------------------- LISTRIGHTS (RFC 4314 3.7) *)
+(* listrights_data = "LISTRIGHTS" SP mailbox SP identifier SP rights *(SP rights): the required rights, then the
+   optional ones, reported as one list in the order sent *)
+Definition rights_val (t : list byte) : list val := map (rfc_right_in rfc_rights) t.
+Inductive enc_right_items : list (list byte) -> list byte -> Prop :=
+| right_items_nil : enc_right_items [] []
+| right_items_cons s t wt l ws : enc_ws1 s -> enc_astring t wt -> forallb (fun b => b <=? 127) t = true ->
+    enc_right_items l ws -> enc_right_items (t :: l) (s ++ wt ++ ws).
+Definition listrights_val (m i : list byte) (req : val) (opt : list (list byte)) : val :=
+  VCon "Response::ListRights" [VRec "ListRights" [("mailbox"%string, VBytes m); ("identifier"%string, VBytes i);
+                                                  ("required"%string, req); ("optional"%string, VList (flat_map rights_val opt))]].
+Inductive enc_listrights_response : val -> list byte -> Prop :=
+| enc_listrights_none k s1 m wm s2 i wi s3 req wr s0 : kw "LISTRIGHTS" k -> enc_ws1 s1 -> enc_mailbox m wm -> enc_ws1 s2 ->
+    enc_astring i wi -> utf8_valid i = true -> enc_ws1 s3 -> enc_rights req wr -> forallb (fun b => (b =? 32) || (b =? 9)) s0 = true ->
+    enc_listrights_response (listrights_val m i req []) (bs "* " ++ (k ++ s1 ++ wm ++ s2 ++ wi ++ s3 ++ wr ++ s0) ++ [13; 10])
+| enc_listrights_some k s1 m wm s2 i wi s3 req wr opt wo sp : kw "LISTRIGHTS" k -> enc_ws1 s1 -> enc_mailbox m wm -> enc_ws1 s2 ->
+    enc_astring i wi -> utf8_valid i = true -> enc_ws1 s3 -> enc_rights req wr -> enc_right_items opt wo -> opt <> [] -> enc_spaces sp ->
+    enc_listrights_response (listrights_val m i req opt) (bs "* " ++ (k ++ s1 ++ wm ++ s2 ++ wi ++ s3 ++ wr ++ wo) ++ sp ++ [13; 10]).
+
+(* ---------------------------------------------------------------- every response line the round-trip theorem reaches *)
+Inductive enc_response : val -> list byte -> Prop :=
+| resp_fetch v w : enc_fetch v w -> enc_response v w
+| resp_data v w : enc_data_response v w -> enc_response v w
+| resp_status v w : enc_status_response v w -> enc_response v w
+| resp_tagged v w : enc_tagged_response v w -> enc_response v w
+| resp_continue v w : enc_continue_response v w -> enc_response v w
+| resp_id_list v w : enc_id_list_response v w -> enc_response v w
+| resp_acl v w : enc_acl_response v w -> enc_response v w
+| resp_listrights v w : enc_listrights_response v w -> enc_response v w
+| resp_capability v body sp : enc_capability_data v body -> enc_spaces sp -> enc_response v (bs "* " ++ body ++ sp ++ [13; 10])
+| resp_enabled v body sp : enc_enabled_data v body -> enc_spaces sp -> enc_response v (bs "* " ++ body ++ sp ++ [13; 10])
+| resp_quotaroot v body sp : enc_quotaroot v body -> enc_spaces sp -> enc_response v (bs "* " ++ body ++ sp ++ [13; 10])
+| resp_myrights v body sp : enc_myrights v body -> enc_spaces sp -> enc_response v (bs "* " ++ body ++ sp ++ [13; 10]).
